@@ -46,7 +46,7 @@ def actions(F):
                 q = e['callee'].get('qname') or ''
                 nm = (e['callee'].get('name') or '').split('::')[-1]
                 if q in TERMQ: nm = 'set_' + TERMQ[q]
-                if not nm or nm in NOT_ACTIONS or nm.startswith(('<', 'is_', 'get_', 'operator')) or nm.endswith(('_v', '_t')): continue
+                if not nm or nm in NOT_ACTIONS or nm.startswith(('<', 'is_', 'get_', 'operator')) or nm.endswith(('_v', '_t')) or not re.fullmatch(r'[A-Za-z_~]\w*', nm): continue
                 base = e['callee'].get('base')
                 obj = last_field(base) if base else ''
                 if not obj and nm in ('set_value', 'set_error', 'set_done', 'set_next', 'start') and e.get('args') and isinstance(e['args'][0], dict):
